@@ -322,6 +322,245 @@ theorem sa_mask (x : Int) (hx : -(2^127 : Int) ≤ x ∧ x < 2^127) :
   · decide
   · decide
 
+theorem prod_expand (ll lh rl rh : Nat) :
+    (lh * 2 ^ 128 + ll) * (rh * 2 ^ 128 + rl) = lh * rh * 2 ^ 256 + (lh * rl + ll * rh) * 2 ^ 128 + ll * rl := by
+  grind
+
+/-- the unsigned product block: `Some (low, H)` is the exact 256-bit product of the magnitudes -/
+theorem mulCore_some (ll lh rl rh low H : Nat) (hll : ll < 2 ^ 128) (hrl : rl < 2 ^ 128)
+    (hz : lh = 0 ∨ rh = 0) (h : mulCore ll lh rl rh = some (low, H)) :
+    low < 2 ^ 128 ∧ H < 2 ^ 128 ∧ low + 2 ^ 128 * H = (lh * 2 ^ 128 + ll) * (rh * 2 ^ 128 + rl) := by
+  have hm := mulx_exact ll rl hll hrl
+  have hzz : lh * rh = 0 := by rcases hz with h | h <;> simp [h]
+  have hp := prod_expand ll lh rl rh
+  generalize (lh * 2 ^ 128 + ll) * (rh * 2 ^ 128 + rl) = X at *
+  generalize lh * rh = Z at *
+  simp only [mulCore, checkedMulU, checkedAddU] at h
+  generalize (mulx ll rl).1 = mlo at *
+  generalize (mulx ll rl).2 = mhi at *
+  generalize lh * rl = P at *
+  generalize ll * rh = Q at *
+  generalize ll * rl = T at *
+  by_cases h1 : P < 2 ^ 128
+  · by_cases h2 : Q < 2 ^ 128
+    · by_cases h3 : mhi + P < 2 ^ 128
+      · by_cases h4 : mhi + P + Q < 2 ^ 128
+        · simp only [h1, h2, h3, h4, ↓reduceIte, Option.some.injEq, Prod.mk.injEq] at h
+          omega
+        · simp [h1, h2, h3, h4] at h
+      · simp [h1, h2, h3] at h
+    · simp [h1, h2] at h
+  · simp [h1] at h
+
+/-- … and `None` only when that product does not fit in 256 bits -/
+theorem mulCore_none (ll lh rl rh : Nat) (hll : ll < 2 ^ 128) (hrl : rl < 2 ^ 128)
+    (h : mulCore ll lh rl rh = none) :
+    2 ^ 256 ≤ (lh * 2 ^ 128 + ll) * (rh * 2 ^ 128 + rl) := by
+  have hm := mulx_exact ll rl hll hrl
+  have hp := prod_expand ll lh rl rh
+  generalize (lh * 2 ^ 128 + ll) * (rh * 2 ^ 128 + rl) = X at *
+  simp only [mulCore, checkedMulU, checkedAddU] at h
+  generalize (mulx ll rl).1 = mlo at *
+  generalize (mulx ll rl).2 = mhi at *
+  generalize lh * rl = P at *
+  generalize ll * rh = Q at *
+  generalize ll * rl = T at *
+  generalize lh * rh = Z at *
+  by_cases h1 : P < 2 ^ 128
+  · by_cases h2 : Q < 2 ^ 128
+    · by_cases h3 : mhi + P < 2 ^ 128
+      · by_cases h4 : mhi + P + Q < 2 ^ 128
+        · simp [h1, h2, h3, h4] at h
+        · omega
+      · omega
+    · omega
+  · omega
+
+theorem signFix_zero (low H : Nat) (hl : low < 2 ^ 128) (hH : H < 2 ^ 128) :
+    (signFix low H 0).WF ∧ (signFix low H 0).value = wrap256 ((low : Int) + 2 ^ 128 * (H : Int)) := by
+  simp only [signFix, Nat.xor_zero, overflowingSubU, wrappingSubU, wrapU128, b2n, asI128_eq, wrapI128, I256.WF, I256.value, wrap256]
+  have : ¬ low < 0 := by omega
+  simp only [this, decide_false, Bool.false_eq_true, ↓reduceIte]
+  omega
+
+theorem signFix_ones (low H : Nat) (hl : low < 2 ^ 128) (hH : H < 2 ^ 128) :
+    (signFix low H (2 ^ 128 - 1)).WF ∧
+    (signFix low H (2 ^ 128 - 1)).value = wrap256 (-((low : Int) + 2 ^ 128 * (H : Int))) := by
+  simp only [signFix, xor_allOnes low hl, xor_allOnes H hH, overflowingSubU, wrappingSubU, wrapU128, b2n, asI128_eq, wrapI128, I256.WF, I256.value, wrap256]
+  by_cases hc : 2 ^ 128 - 1 - low < 2 ^ 128 - 1 <;> simp only [hc, decide_true, decide_false, Bool.false_eq_true, ↓reduceIte] <;> omega
+
+theorem isEq_zero_iff (a : I256) (ha : a.WF) : a.isEq I256.ZERO = true ↔ a.value = 0 := by
+  rw [isEq_iff]
+  constructor
+  · intro h; subst h; simp [I256.value, I256.ZERO]
+  · intro h
+    exact value_inj a I256.ZERO ha (by simp only [I256.WF, I256.ZERO]; omega) (by rw [h]; simp [I256.value, I256.ZERO])
+
+theorem neg_iff (a : I256) (ha : a.WF) : a.value < 0 ↔ a.hi < 0 := by
+  obtain ⟨alo, ahi⟩ := a; simp only [I256.WF, I256.value] at *; omega
+
+/-- the signed product is `±` the product of the magnitudes -/
+theorem signed_prod (va vb : Int) (A B : Nat)
+    (hA : (A : Int) = if va < 0 then -va else va) (hB : (B : Int) = if vb < 0 then -vb else vb) :
+    va * vb = if (va < 0) = (vb < 0) then ((A * B : Nat) : Int) else -((A * B : Nat) : Int) := by
+  rw [Int.natCast_mul, hA, hB]
+  by_cases h1 : va < 0 <;> by_cases h2 : vb < 0 <;> simp [h1, h2, Int.neg_mul_neg, Int.neg_mul, Int.mul_neg]
+
+/-- final arithmetic step of `checked_mul`, on plain integers: `rv` is the value of the
+sign-restored limbs, `M` the magnitude of the product, `neg` whether the signs differ -/
+theorem final_step (M : Nat) (rv P : Int) (neg rneg : Bool) (hM : M < 2 ^ 256) (hM0 : 0 < M)
+    (hrv : rv = wrap256 (if neg then -(M : Int) else (M : Int)))
+    (hP : P = if neg then -(M : Int) else (M : Int)) (hrneg : rneg = decide (rv < 0)) :
+    ((rneg == neg) = true → rv = P) ∧
+    ((rneg == neg) = false → ¬ (-(2 ^ 255 : Int) ≤ P ∧ P < 2 ^ 255)) := by
+  subst hrneg
+  cases neg <;> simp only [wrap256, Bool.false_eq_true, ↓reduceIte] at hrv hP <;>
+    by_cases h : rv < 0 <;> simp only [h, decide_true, decide_false, beq_self_eq_true, Bool.true_eq_false,
+      Bool.false_eq_true, beq_iff_eq, forall_const, false_implies, true_and, and_true, reduceCtorEq, beq_eq_false_iff_ne, ne_eq, not_true_eq_false, not_false_eq_true] <;> omega
+
+theorem xor_masks (x y : Int) :
+    ((if x < 0 then 2 ^ 128 - 1 else 0 : Nat) ^^^ (if y < 0 then 2 ^ 128 - 1 else 0 : Nat))
+      = if (decide (x < 0) != decide (y < 0)) = true then 2 ^ 128 - 1 else 0 := by
+  by_cases h1 : x < 0 <;> by_cases h2 : y < 0 <;> simp [h1, h2]
+
+theorem checkedMul_spec (a b : I256) (ha : a.WF) (hb : b.WF) :
+    (∀ r, a.checkedMul b = some r → r.WF ∧ r.value = a.value * b.value) ∧
+    (a.checkedMul b = none ↔ ¬ (-(2 ^ 255 : Int) ≤ a.value * b.value ∧ a.value * b.value < 2 ^ 255)) := by
+  have hA := absU a ha
+  have hB := absU b hb
+  have hsa := sa_mask a.hi ⟨ha.2.1, ha.2.2⟩
+  have hsb := sa_mask b.hi ⟨hb.2.1, hb.2.2⟩
+  have hna := neg_iff a ha
+  have hnb := neg_iff b hb
+  have hza := isEq_zero_iff a ha
+  have hzb := isEq_zero_iff b hb
+  have hra : -(2 ^ 255 : Int) ≤ a.value ∧ a.value < 2 ^ 255 := by
+    obtain ⟨alo, ahi⟩ := a; simp only [I256.WF, I256.value] at *; omega
+  have hrb : -(2 ^ 255 : Int) ≤ b.value ∧ b.value < 2 ^ 255 := by
+    obtain ⟨blo, bhi⟩ := b; simp only [I256.WF, I256.value] at *; omega
+  unfold I256.checkedMul
+  simp only [MUL_L_SIGN_SHIFT, MUL_R_SIGN_SHIFT, hsa, hsb, I256.isNegative, xor_masks]
+  generalize a.wrappingAbs = la at *
+  generalize b.wrappingAbs = lb at *
+  generalize hva : a.value = va at *
+  generalize hvb : b.value = vb at *
+  by_cases hz : (a.isEq I256.ZERO || b.isEq I256.ZERO) = true
+  · rw [if_pos hz]
+    have : va = 0 ∨ vb = 0 := by
+      simp only [Bool.or_eq_true] at hz
+      rcases hz with h | h
+      · exact Or.inl (hza.1 h)
+      · exact Or.inr (hzb.1 h)
+    have hp : va * vb = 0 := by rcases this with h | h <;> simp [h]
+    rw [hp]
+    refine ⟨?_, ?_⟩
+    · intro r hr
+      simp only [Option.some.injEq] at hr
+      subst hr
+      exact ⟨by simp only [I256.WF, I256.ZERO]; omega, by simp [I256.value, I256.ZERO]⟩
+    · constructor
+      · intro h; exact nomatch h
+      · intro h; exact absurd (by omega) h
+  · rw [if_neg hz]
+    have hva0 : va ≠ 0 := fun h => hz (by simp [hza.2 h])
+    have hvb0 : vb ≠ 0 := fun h => hz (by simp [hzb.2 h])
+    obtain ⟨A, hAn⟩ : ∃ A, asU128 la.hi * 2 ^ 128 + la.lo = A := ⟨_, rfl⟩
+    obtain ⟨B, hBn⟩ : ∃ B, asU128 lb.hi * 2 ^ 128 + lb.lo = B := ⟨_, rfl⟩
+    have hA3 : (A : Int) = if va < 0 then -va else va := by rw [← hAn]; exact hA.2.2.1
+    have hB3 : (B : Int) = if vb < 0 then -vb else vb := by rw [← hBn]; exact hB.2.2.1
+    have hsp := signed_prod va vb A B hA3 hB3
+    have hA0 : 0 < A := by
+      have := hA3; by_cases h : va < 0 <;> simp only [h, ↓reduceIte] at this <;> omega
+    have hB0 : 0 < B := by
+      have := hB3; by_cases h : vb < 0 <;> simp only [h, ↓reduceIte] at this <;> omega
+    have hAB0 : 0 < A * B := Nat.mul_pos hA0 hB0
+    have hsign : ((va < 0) = (vb < 0)) ↔ ¬ ((decide (a.hi < 0) != decide (b.hi < 0)) = true) := by
+      by_cases h1 : a.hi < 0 <;> by_cases h2 : b.hi < 0 <;> simp [h1, h2, hna.2, hnb.2, hna, hnb]
+    by_cases hhi : (la.hi != 0 && lb.hi != 0) = true
+    · -- both magnitudes ≥ 2^128
+      rw [if_pos hhi]
+      simp only [Bool.and_eq_true, bne_iff_ne, ne_eq] at hhi
+      have h1 : 2 ^ 128 ≤ A := by
+        have : asU128 la.hi ≠ 0 := fun h => hhi.1 (hA.2.2.2.2 h)
+        omega
+      have h2 : 2 ^ 128 ≤ B := by
+        have : asU128 lb.hi ≠ 0 := fun h => hhi.2 (hB.2.2.2.2 h)
+        omega
+      have hbig : 2 ^ 128 * 2 ^ 128 ≤ A * B := Nat.mul_le_mul h1 h2
+      refine ⟨(fun r hr => nomatch hr), ⟨fun _ => ?_, fun _ => rfl⟩⟩
+      rw [hsp]
+      generalize A * B = M at *
+      split <;> omega
+    · rw [if_neg hhi]
+      have hz1 : asU128 la.hi = 0 ∨ asU128 lb.hi = 0 := by
+        simp only [Bool.and_eq_true, bne_iff_ne, ne_eq] at hhi
+        by_cases h : la.hi = 0
+        · exact Or.inl (hA.2.2.2.1 h)
+        · by_cases h' : lb.hi = 0
+          · exact Or.inr (hB.2.2.2.1 h')
+          · exact absurd ⟨h, h'⟩ hhi
+      cases hc : mulCore la.lo (asU128 la.hi) lb.lo (asU128 lb.hi) with
+      | none =>
+        have hbig := mulCore_none _ _ _ _ hA.1 hB.1 hc
+        rw [hAn, hBn] at hbig
+        refine ⟨(fun r hr => nomatch hr), ⟨fun _ => ?_, fun _ => rfl⟩⟩
+        rw [hsp]
+        generalize A * B = M at *
+        split <;> omega
+      | some p =>
+        obtain ⟨low, H⟩ := p
+        have hs := mulCore_some _ _ _ _ low H hA.1 hB.1 hz1 hc
+        rw [hAn, hBn] at hs
+        simp only []
+        have hM : ((A * B : Nat) : Int) = (low : Int) + 2 ^ 128 * (H : Int) := by
+          have := hs.2.2
+          have h2 : ((low + 2 ^ 128 * H : Nat) : Int) = ((A * B : Nat) : Int) := by rw [this]
+          simp only [Int.natCast_add, Int.natCast_mul, Int.natCast_pow] at h2 ⊢
+          omega
+        have hMlt : A * B < 2 ^ 256 := by
+          have := hs.2.2
+          generalize A * B = M at *
+          omega
+        generalize hneg : (decide (a.hi < 0) != decide (b.hi < 0)) = neg at *
+        have hP : va * vb = if neg = true then -((A * B : Nat) : Int) else ((A * B : Nat) : Int) := by
+          rw [hsp]
+          cases neg
+          · have : (va < 0) = (vb < 0) := hsign.2 (by simp)
+            simp [this]
+          · have : ¬ ((va < 0) = (vb < 0)) := fun h => (hsign.1 h) rfl
+            simp [this]
+        obtain ⟨R, hR⟩ : ∃ R, signFix low H (if neg = true then 2 ^ 128 - 1 else 0) = R := ⟨_, rfl⟩
+        have hRspec : R.WF ∧ R.value = wrap256 (if neg = true then -((A * B : Nat) : Int) else ((A * B : Nat) : Int)) := by
+          rw [← hR, hM]
+          cases neg
+          · simpa using signFix_zero low H hs.1 hs.2.1
+          · simpa using signFix_ones low H hs.1 hs.2.1
+        rw [hR]
+        have hRneg : decide (R.hi < 0) = decide (R.value < 0) := by
+          have := neg_iff R hRspec.1
+          by_cases h : R.hi < 0 <;> simp [h, this]
+        have hfin := final_step (A * B) R.value (va * vb) neg (decide (R.hi < 0)) hMlt hAB0 hRspec.2 hP hRneg
+        have hRrange : -(2 ^ 255 : Int) ≤ R.value ∧ R.value < 2 ^ 255 := by
+          have := hRspec.1
+          obtain ⟨rlo, rhi⟩ := R
+          simp only [I256.WF, I256.value] at *
+          omega
+        by_cases hcnd : (decide (R.hi < 0) == neg) = true
+        · rw [if_pos hcnd]
+          have hv := hfin.1 hcnd
+          refine ⟨?_, ⟨(fun h => nomatch h), ?_⟩⟩
+          · intro r hr
+            simp only [Option.some.injEq] at hr
+            subst hr
+            exact ⟨hRspec.1, hv⟩
+          · intro hn
+            exact absurd (by rw [← hv]; exact hRrange) hn
+        · rw [if_neg hcnd]
+          have hcf : (decide (R.hi < 0) == neg) = false := by
+            cases hh : (decide (R.hi < 0) == neg)
+            · rfl
+            · exact absurd hh hcnd
+          exact ⟨(fun r hr => nomatch hr), ⟨fun _ => hfin.2 hcf, fun _ => rfl⟩⟩
 
 /-! ## §2 native widths -/
 
